@@ -380,22 +380,31 @@ def _production_case(args):
                 par_.close()
         elif step in ("basin", "basin-mapped"):
             ref = d / "ref.rtdc"
-            mapping = np.array([4, 1, 1, 5, 0], dtype=np.uint64)
-            with RTDCWriter(ref, mode="reset") as hw:
-                hw.store_metadata(gen.complete_meta(n, fl=False))
-                if step == "basin":
-                    hw.store_feature("index_online", ev["index_online"])
-                    hw.store_basin("b", "file", "hdf5", [str(src)])
-                else:
-                    hw.store_feature(
-                        "index_online",
-                        ev["index_online"][mapping.astype(int)])
-                    hw.store_basin("b", "file", "hdf5", [str(src)],
-                                   basin_map=mapping)
-            with dclab.new_dataset(ref) as ds:
-                out += chk(ds, "dclab.rtdc_dataset.feat_basin:"
-                           "BasinProxyFeature" if step == "basin-mapped" else
-                           "dclab.rtdc_dataset.feat_basin:Basin", step)
+            # maps: a subset with a repeat; every basin event with repeats
+            # (weights differ); a permutation; a single event
+            maps = [[4, 1, 1, 5, 0], [0, 1, 2, 3, 4, 4, 4, 4, 5],
+                    [5, 3, 0, 1, 2, 4], [2]] if step == "basin-mapped" \
+                else [None]
+            for mp in maps:
+                mapping = None if mp is None else np.array(mp,
+                                                           dtype=np.uint64)
+                with RTDCWriter(ref, mode="reset") as hw:
+                    hw.store_metadata(gen.complete_meta(
+                        n if mp is None else len(mp), fl=False))
+                    if step == "basin":
+                        hw.store_feature("index_online", ev["index_online"])
+                        hw.store_basin("b", "file", "hdf5", [str(src)])
+                    else:
+                        hw.store_feature(
+                            "index_online",
+                            ev["index_online"][mapping.astype(int)])
+                        hw.store_basin("b", "file", "hdf5", [str(src)],
+                                       basin_map=mapping)
+                with dclab.new_dataset(ref) as ds:
+                    out += chk(ds, "dclab.rtdc_dataset.feat_basin:"
+                               "BasinProxyFeature" if step == "basin-mapped"
+                               else "dclab.rtdc_dataset.feat_basin:Basin",
+                               step if mp is None else f"{step} {mp}")
     except Exception as e:
         out.append(violation(f"dclab.cli:{step}", "exception", case,
                              f"{step}: {type(e).__name__}: {e}",
